@@ -25,6 +25,52 @@ struct ExploreChooser : LoopChooser
     int choose(int n, InteractionQuery const&) override { return c ? c->choose(n) : 0; }
 };
 
+//! Chooser that also logs who asked and which outcome (of the scripted menu) was taken
+struct QueryLog
+{
+    InteractionQuery q;
+    int n, chosen;
+    unsigned call;
+    bool alloc_failed{false};
+};
+struct LoggingChooser : LoopChooser
+{
+    Choices* c{nullptr};
+    unsigned const* call{nullptr};
+    std::vector<QueryLog> log;
+    int choose(int n, InteractionQuery const& q) override
+    {
+        int k = c ? c->choose(n) : 0;
+        log.push_back({q, n, k, call ? *call : 0, false});
+        return k;
+    }
+    void allocation_result(bool failed) override
+    {
+        if (!log.empty())
+            log.back().alloc_failed = failed;
+    }
+};
+
+//! Secondaries an outcome emits (particle kind, kinetic energy) for incident (kind, e)
+inline std::vector<std::pair<int, double>> outcome_secondaries(ScriptedShared const& s, Outcome o,
+                                                               int kind, double e)
+{
+    double const avail = e + (kind == 2 ? 2 * electron_mass_mev : 0);
+    switch (o)
+    {
+        case Outcome::scatter_plus_one: return {{1, e / 4}};
+        case Outcome::scatter_three: return {{0, e / 8}, {1, e / 8}, {0, e / 8}};
+        case Outcome::absorb_two: return {{0, avail / 2}, {1, avail / 4}};
+        case Outcome::absorb_pair: {
+            double ke = (avail - 2 * electron_mass_mev) / 4;
+            return {{1, ke}, {2, ke}};
+        }
+        case Outcome::absorb_subcut: return {{1, s.subcut_energy}, {0, avail / 2}};
+        case Outcome::annihilate: return {{0, avail / 2}, {0, avail / 2}};
+        default: return {};
+    }
+}
+
 struct PrimaryCase
 {
     int kind;
@@ -128,7 +174,10 @@ struct EventRun
 inline EventRun run_event(LoopProblem& P, PrimaryCase const& pc, Choices& c, unsigned horizon = 10000)
 {
     EventRun out;
-    P.recorder->steps.clear();
+    if (P.recorder)
+        P.recorder->steps.clear();
+    if (P.recorder2)
+        P.recorder2->steps.clear();
     if (P.probe_log)
     {
         P.probe_log->snaps.clear();
